@@ -1,6 +1,7 @@
 package main
 
 import (
+	"math/big"
 	"fmt"
 	"go/token"
 	"go/types"
@@ -444,7 +445,43 @@ func (c Cond) String() string {
 	if c.Op == "T" || c.Op == "F" {
 		return c.Op + "(" + c.L.String() + ")"
 	}
+	c = c.normInt()
 	return c.Op + "(" + c.L.String() + "," + c.R.String() + ")"
+}
+
+func intConstPath(p *Path) (*big.Int, bool) {
+	if p == nil || p.Kind != "const" || p.Name == "" {
+		return nil, false
+	}
+	for i, ch := range p.Name {
+		if (ch < '0' || ch > '9') && !(i == 0 && ch == '-' && len(p.Name) > 1) {
+			return nil, false
+		}
+	}
+	n, ok := new(big.Int).SetString(p.Name, 10)
+	return n, ok
+}
+
+// normInt gives integer comparisons against a constant one spelling: `x <= c` is `x < c+1`,
+// `c <= x` is `c-1 < x`; for lengths `len(x) < 1` is `len(x) == 0` and `0 < len(x)` is `len(x) != 0`.
+func (c Cond) normInt() Cond {
+	if c.Op == "le" {
+		if n, ok := intConstPath(c.R); ok {
+			c = Cond{"lt", c.L, &Path{Kind: "const", Name: new(big.Int).Add(n, big.NewInt(1)).String()}}
+		} else if n, ok := intConstPath(c.L); ok {
+			c = Cond{"lt", &Path{Kind: "const", Name: new(big.Int).Sub(n, big.NewInt(1)).String()}, c.R}
+		}
+	}
+	if c.Op == "lt" {
+		isLen := func(p *Path) bool { return p != nil && p.Kind == "call" && (p.Name == "len" || p.Name == "cap") }
+		if n, ok := intConstPath(c.R); ok && n.Cmp(big.NewInt(1)) == 0 && isLen(c.L) {
+			return Cond{"eq", zeroPath, c.L}.canon()
+		}
+		if n, ok := intConstPath(c.L); ok && n.Sign() == 0 && isLen(c.R) {
+			return Cond{"ne", zeroPath, c.R}.canon()
+		}
+	}
+	return c
 }
 
 func (c Cond) Negate() Cond {
